@@ -15,31 +15,42 @@ CONSTANTS DEPTH = %d
  NIMG = %d
  NSLIDES = 2
  OPS = {%s}
+ ARGS = {%s}
+ VIAS = {%s}
+ LOGO = %d
  U <- DummyU
 VIEW ViewSt
+INVARIANT NamesFresh
 INVARIANT EmitState
 CHECK_DEADLOCK FALSE
 """
 _G = {}
 
 
+def sub_universe(full, sel):
+    """The images a configuration works with (sel: 1-based indices into the full universe) followed by the two library-supplied ones."""
+    return [full[i - 1] for i in sel] + full[-2:]
+
+
 def _job(args):
-    hid, h, nimg, work = args
+    hid, h, sel, logo, work = args
     if "U" not in _G:
         _G["U"] = M.universe()
-    U = _G["U"][:nimg] + _G["U"][-2:]
-    return M.run_history(hid, h, U, os.path.join(work, "img"), nimg)
+    return M.run_history(hid, h, sub_universe(_G["U"], sel), os.path.join(work, "img"), len(sel), logo)
 
 
-def explore(work, name, depth, nimg, ops, sim=None):
+def explore(work, name, depth, nimg, ops, sim=None, nslides=2, args=("none", "w", "h", "both"), vias=("stream", "path"), logo=0):
     cfg = os.path.join(work, "MC_Media_%s.cfg" % name)
-    body = CFG % (depth, nimg, ",".join('"%s"' % o for o in ops))
+    q = lambda xs: ",".join('"%s"' % o for o in xs)  # noqa: E731
+    body = (CFG % (depth, nimg, q(ops), q(args), q(vias), logo)).replace("NSLIDES = 2", "NSLIDES = %d" % nslides)
     if sim:
         body = body.replace("VIEW ViewSt\n", "")
     with open(cfg, "w") as f:
         f.write(body)
     extra = ["-simulate", sim, "-depth", str(depth), "-seed", str(E.seed() + 21)] if sim else []
     r = E.run_tlc("MC_Media", cfg, work=work, workers=1 if sim else 16, timeout=1800, extra=extra, heap="8g")
+    if r.invariant_violated or "is violated" in r.out:
+        raise E.MachineryError("design-level check failed in MC_Media[%s]: %s" % (name, r.invariant_violated))
     paths = [p for p in r.printed("ST") if p]
     if sim:
         seen, out = set(), []
@@ -61,29 +72,39 @@ def main() -> int:
     ALL = ["addPicture", "insertPicture", "addMovie", "addOle", "save", "reopen"]
     from mbt.drive import media as _M
     NGEN = len(_M._SPECS)          # every generated image of the universe (the two library-supplied ones follow them)
+    ALLI = lambda n: list(range(1, n + 1))  # noqa: E731
+    # part lifecycle ("gc"): a deck whose unused layout carries a logo; pictures of the same format, the logo itself, removal of the
+    # layout, re-open - every order (the image part of the removed layout leaves the package and frees its name)
+    PNGS = [i + 1 for i, sp in enumerate(_M._SPECS) if sp[0] == "PNG"][:3]
+    GC = dict(nslides=1, args=("none",), vias=("stream",), logo=1)
     if thorough:
-        cfgs = [("a", 3, 4, ALL, None), ("b", 2, NGEN, ["addPicture", "reopen"], None), ("sim", 8, NGEN, ALL, "num=1500")]
+        cfgs = [("a", 3, ALLI(4), ALL, None, {}), ("b", 2, ALLI(NGEN), ["addPicture", "reopen"], None, {}),
+                ("gc", 5, PNGS + [2], ["addPicture", "removeLayout", "reopen", "save"], None, GC),
+                ("sim", 8, ALLI(NGEN), ALL + ["removeLayout"], "num=1500", dict(logo=1))]
     else:
-        cfgs = [("a", 2, 3, ALL, None), ("b", 1, NGEN, ["addPicture", "insertPicture"], None), ("c", 3, 2, ["addPicture", "reopen", "addOle", "addMovie"], None),
-                ("sim", 7, NGEN, ALL, "num=150")]
+        cfgs = [("a", 2, ALLI(3), ALL, None, {}), ("b", 1, ALLI(NGEN), ["addPicture", "insertPicture"], None, {}),
+                ("c", 3, ALLI(2), ["addPicture", "reopen", "addOle", "addMovie"], None, {}),
+                ("gc", 4, PNGS, ["addPicture", "removeLayout", "reopen"], None, GC),
+                ("sim", 7, ALLI(NGEN), ALL + ["removeLayout"], "num=150", dict(logo=1))]
     jobs, per = [], {}
     states = trans = 0
     if replay:
         rp = json.load(open(replay))
-        jobs = [(rp["id"], rp["h"], rp["nimg"], work)]
+        jobs = [(rp["id"], rp["h"], tuple(rp["sel"]), rp.get("logo", 0), work)]
     else:
-        for name, depth, nimg, ops, sim in cfgs:
-            paths, r = explore(work, name, depth, nimg, ops, sim)
+        for name, depth, sel, ops, sim, kw in cfgs:
+            paths, r = explore(work, name, depth, len(sel), ops, sim, **kw)
             states += r.distinct
             trans += r.generated
-            per[name] = {"paths": len(paths), "depth": depth, "images": nimg, "ops": ops, "tlc_distinct": r.distinct, "simulate": sim}
-            jobs += [("%s:%d" % (name, i), p, nimg, work) for i, p in enumerate(paths)]
+            per[name] = {"paths": len(paths), "depth": depth, "images": len(sel), "ops": ops, "tlc_distinct": r.distinct, "simulate": sim,
+                         "logo_on_layout": kw.get("logo", 0)}
+            jobs += [("%s:%d" % (name, i), p, tuple(sel), kw.get("logo", 0), work) for i, p in enumerate(paths)]
     traces = E.pmap(_job, jobs, procs=16, chunk=4)
     fullU = M.universe()
 
-    def payload(group, nimg):
-        U = fullU[:nimg] + fullU[-2:]
-        clean = [{"id": t["id"], "steps": [{k: s[k] for k in ("a", "out", "t")} for s in t["steps"]], "saved": t["saved"]} for t in group]
+    def payload(group, sel):
+        U = sub_universe(fullU, sel)
+        clean = [{"id": t["id"], "init": t["init"], "steps": [{k: s[k] for k in ("a", "out", "t")} for s in t["steps"]], "saved": t["saved"]} for t in group]
         return {"universe": M.table(U), "traces": clean}
     groups = {}
     for j, t in zip(jobs, traces):
@@ -111,10 +132,10 @@ def main() -> int:
             bad += b
             for k, v in s.items():
                 tot[k] = tot.get(k, 0) + v
-    byid = {t["id"]: (t, j[2]) for j, t in zip(jobs, traces)}
+    byid = {t["id"]: (t, j[2], j[3]) for j, t in zip(jobs, traces)}
     for v in bad:
-        t, nimg = byid[v["id"]]
-        U = fullU[:nimg] + fullU[-2:]
+        t, nimg, logo = byid[v["id"]]
+        U = sub_universe(fullU, nimg)
         for b in v["bad"][:3]:
             clause = "+".join(sorted(b["failing"]))
             a = t["steps"][min(b["k"], len(t["steps"])) - 1]["a"]
@@ -128,14 +149,14 @@ def main() -> int:
                             (m["ext"], m["ctype"]) != ({"PNG": "png", "JPEG": "jpg", "GIF": "gif", "BMP": "bmp", "TIFF": "tiff", "EMF": "emf", "WMF": "wmf"}.get(U[m["img"] - 1]["fmt"]),
                                                        {"PNG": "image/png", "JPEG": "image/jpeg", "GIF": "image/gif", "BMP": "image/bmp", "TIFF": "image/tiff", "EMF": "image/x-emf", "WMF": "image/x-wmf"}.get(U[m["img"] - 1]["fmt"]))})
             site = ("stored:" + ",".join(wrong)) if "ExtAndTypeOfActualFormat" in b["failing"] and wrong else (a["op"] + cls)
-            rep.reject("%s@%s" % (clause, site), {"module": "Media", "id": t["id"], "h": t["h"], "nimg": nimg, "failing": b,
+            rep.reject("%s@%s" % (clause, site), {"module": "Media", "id": t["id"], "h": t["h"], "sel": list(nimg), "logo": logo, "failing": b,
                                                   "observed": t_obs, "errs": [s.get("err") for s in t["steps"]]},
                        "history %s" % json.dumps([{k: x[k] for k in ("op", "slide", "img", "args", "via")} for x in t["h"]])[:500])
     ops = {}
     for j in jobs:
         for a in j[1]:
             ops[a["op"]] = ops.get(a["op"], 0) + 1
-    if not replay and any(not ops.get(o) for o in ALL):
+    if not replay and any(not ops.get(o) for o in ALL + ["removeLayout"]):
         raise E.MachineryError("vacuous: %s" % ops)
     cov = {"states": max(states, 1), "transitions": max(trans, 1), "traces_validated_against_impl": len(traces),
            "real_steps_validated": tot.get("steps", 0), "saved_packages_validated": tot.get("saves", 0), "configs": per,
@@ -143,7 +164,9 @@ def main() -> int:
            "samples": [{"history": jobs[len(jobs) // 2][1]}],
            "rule": "TLC enumerates every history <= DEPTH of picture / placeholder-picture / movie-poster / OLE-icon additions over the image "
                    "universe (generated PNG/JPEG/GIF/BMP/TIFF with misleading file names and every DPI class, from path and stream) with saves "
-                   "and re-opens in between; each is replayed; TLC validates the media projection (in memory after every step, and of every saved zip)"}
+                   "and re-opens in between, and - from a deck whose unused slide layout carries a picture - with the removal of that layout (its image part "
+                   "leaves the package and frees its name; MC_Media transcribes next_image_partname and keeps the live part names in the state so that "
+                   "every ORDER of additions and removal is a distinct history); each is replayed; every picture added is re-read after every step; TLC validates the media projection (in memory after every step, and of every saved zip)"}
     return rep.finish("model_checking", cov, ["TLC 1.8", "Pillow generates the images and reads pixel size / DPI for the expectation; format by magic bytes",
                                              "aspect-ratio clause evaluated with Fractions in the driver (products exceed 32 bits), logged as a boolean",
                                              "DPI normalisation as documented: nearest integer, 72 when absent or outside 1..2048"])
